@@ -48,4 +48,46 @@ theorem remove_eq_guard (c : Cmp) (q : PQ) (h : Nat) (hsz : q.items.size < 2^64)
     simp only [curIndex, Option.getD_some, (remove_guard_spec _ _ _).1]
     by_cases h1 : i < q.items.size <;> by_cases h2 : q.bp.isSome = true <;> simp [h1, h2]
 
+/-- the model's comparator test `c.gt a b` built from a C comparator `pred` returning a 32-bit `int`:
+`pred(a, b) > 0` in two's complement -/
+def cmpOfPred (pred : Nat → Nat → Nat) : Cmp := ⟨fun a b => decide (0 < pred a b ∧ pred a b < 2^31)⟩
+
+/-- a C `int` value (32-bit two's complement, as a `Nat`) is positive -/
+def intPos (r : Nat) : Prop := 0 < r ∧ r < 2^31
+
+/-- The three places where the sift loops consult the comparator are, as generated from priority_queue.c:
+`pred(first_item, other_item) > 0` twice in `s_sift_down` (candidate first, child second) and
+`pred(parent_item, child_item) > 0` in `s_sift_up` — exactly the tests `c.gt (key first) (key other)` /
+`c.gt (key parent) (key child)` of `pickFirst` / `siftUp` in the model with `c = cmpOfPred pred`.  Only the
+documented contract of the comparator (`> 0`) is consulted: no `< 0`, no `== 0`, no swapped operands. -/
+theorem sift_sites_bridge :
+    Gen.HeapIdx.sift_down_site1_args = ["first_item", "other_item"] ∧
+    Gen.HeapIdx.sift_down_site2_args = ["first_item", "other_item"] ∧
+    Gen.HeapIdx.sift_up_site1_args = ["parent_item", "child_item"] ∧
+    (∀ r, r < 2^32 → (Gen.HeapIdx.sift_down_site1_test r = true ↔ intPos r)) ∧
+    (∀ r, r < 2^32 → (Gen.HeapIdx.sift_down_site2_test r = true ↔ intPos r)) ∧
+    (∀ r, r < 2^32 → (Gen.HeapIdx.sift_up_site1_test r = true ↔ intPos r)) := by
+  refine ⟨by decide, by decide, by decide, ?_, ?_, ?_⟩ <;>
+  · intro r hr
+    simp only [Gen.HeapIdx.sift_down_site1_test, Gen.HeapIdx.sift_down_site2_test, Gen.HeapIdx.sift_up_site1_test,
+      decide_eq_true_eq, intPos]
+    omega
+
+/-- with `c = cmpOfPred pred`, the model's test is the generated site test applied to `pred` on the arguments in the
+generated order -/
+theorem cmpOfPred_gt (pred : Nat → Nat → Nat) (hp : ∀ a b, pred a b < 2^32) (a b : Nat) :
+    (cmpOfPred pred).gt a b = Gen.HeapIdx.sift_down_site1_test (pred a b) ∧
+    (cmpOfPred pred).gt a b = Gen.HeapIdx.sift_down_site2_test (pred a b) ∧
+    (cmpOfPred pred).gt a b = Gen.HeapIdx.sift_up_site1_test (pred a b) := by
+  have h := sift_sites_bridge
+  have hr := hp a b
+  have e : ∀ (x : Bool), (x = true ↔ intPos (pred a b)) → (cmpOfPred pred).gt a b = x := by
+    intro x hx
+    cases x
+    · simp only [cmpOfPred, decide_eq_false_iff_not]
+      intro hh; have := hx.mpr hh; cases this
+    · simp only [cmpOfPred, decide_eq_true_eq]
+      exact hx.mp rfl
+  exact ⟨e _ (h.2.2.2.1 _ hr), e _ (h.2.2.2.2.1 _ hr), e _ (h.2.2.2.2.2 _ hr)⟩
+
 end AwsVerif.Proofs.C06
